@@ -53,7 +53,14 @@ def within(lo, hi):
 
 
 def rng(label, expr, lo, hi, i=0):
-    return (label + " in [%g, %g]" % (lo, hi), "RangeOK(%s, %d, %d)" % (expr, lo, hi), lambda o, x: lo - TOL * max(1, abs(lo)) <= o[i] <= hi + TOL * max(1, abs(hi)))
+    """the predicate returns True, or the side on which the value leaves the range"""
+    def pred(o, x):
+        if o[i] < lo - TOL * max(1, abs(lo)):
+            return "below"
+        if o[i] > hi + TOL * max(1, abs(hi)):
+            return "above"
+        return True
+    return (label + " in [%g, %g]" % (lo, hi), "RangeOK(%s, %d, %d)" % (expr, lo, hi), pred)
 
 
 def ordered(u, m, l_):
@@ -121,7 +128,9 @@ ENTRIES = [
     E("momentum.ChaikinOscillator", [("co", "ChaikinOsc(h, l, c, v, {0}, {1})", 0), ("ad", "Ad(h, l, c, v)", 1)],
       [(1, 2), (2, 3), (2, 2)], [(2, 4)]),
     E("momentum.IchimokuCloud", [("conversion", "IchiLine(h, l, {0})", 0), ("base", "IchiLine(h, l, {2})", 1),
-                                 ("leadingA", "IchiLeadA(h, l, {0}, {2})", 2), ("leadingB", "IchiLine(h, l, {4})", 3)],
+                                 ("leadingA", "IchiLeadA(h, l, {0}, {2})", 2), ("leadingB", "IchiLine(h, l, {4})", 3),
+                                 # Chikou Span (Lagging Span) = Closing plotted LaggingPeriod days in the past
+                                 ("lagging", "Prev(c, {6})", 4)],
       [(1, 1, 2, 2, 3, 3, 2), (2, 2, 2, 2, 3, 3, 1), (2, 2, 3, 3, 4, 4, 2)], []),
     # ---- volatility
     E("volatility.Atr", [("atr", "Atr(h, l, c, {0})", 0)], [(1,), (2,), (3,)], [(4,)], c15=[nonneg("atr", "Atr(h, l, c, {0})")]),
@@ -146,6 +155,12 @@ ENTRIES = [
       [(1,), (2,), (3,)], [(4,)]),
     E("volatility.AccelerationBands", [("upper", "AccUpper(h, l, {0})", 0), ("middle", "Sma(c, {0})", 1), ("lower", "AccLower(h, l, {0})", 2)],
       [(1,), (2,), (3,)], [(4,)], c15=[ordered("AccUpper(h, l, {0})", "Sma(c, {0})", "AccLower(h, l, {0})")]),
+    E("volatility.Po", [("po", "Po(h, l, c, {0})", 0)], [(2,), (3,)], [(4,)]),
+    # dyadic periods only: the recursion branches on comparisons of derived quantities, which must be exact in floats too
+    E("volatility.SuperTrend/Sma", [("supertrend", "SuperTrend(h, l, c, Atr(h, l, c, {0}), Q(5, 2))", 0)], [(1,), (2,)], [(4,)]),
+    E("volatility.SuperTrend/Ema", [("supertrend", "SuperTrend(h, l, c, Ema(Tr(h, l, c), {0}), Q(5, 2))", 0)], [(1,), (3,)], []),
+    E("volatility.SuperTrend", [("supertrend", "SuperTrend(h, l, c, Hma(Tr(h, l, c), {0}, 2, 2), Q(5, 2))", 0)], [(4,)], []),
+    E("volatility.Atr/Hma", [("atr", "Hma(Tr(h, l, c), {0}, 2, 2)", 0)], [(4,)], []),
     E("volatility.UlcerIndex", [("ui^2", "UlcerSq(c, {0})", lambda o: sq(o[0]))], [(1,), (2,), (3,)], [(4,)], c15=[nonneg("ulcer index", "UlcerSq(c, {0})")]),
     # ---- volume
     E("volume.Mfm", [("mfm", "Mfm(h, l, c)", 0)], [()], c15=[rng("mfm", "Mfm(h, l, c)", -1, 1)]),
@@ -254,8 +269,17 @@ DEGREES = {
     "volume.Mfm": [P0], "volume.Mfv": [(0, 1)], "volume.Ad": [(0, 1)], "volume.Cmf": [P0], "volume.Emv": [(2, -1)], "volume.Fi": [(1, 1)],
     "volume.Mfi": [P0], "volume.Nvi": [P0], "volume.Obv": [(0, 1)], "volume.Vpt": [(0, 1)], "volume.Vwap": [P1],
 }
+SQ_DEG = {"std^2": (2, 0), "(upper-middle)^2": (2, 0), "(middle-lower)^2": (2, 0), "upper+lower": (1, 0), "ui^2": (0, 0),
+          "width^2": (0, 0), "(%b-1/2)^2": (0, 0)}
+# entries whose formula is pure arithmetic on the inputs (no sign / comparison of DERIVED quantities, where float noise on a
+# rational tie could legitimately flip a branch): these are also run on the decimal unit 0.1
+DECIMAL_OK = {"trend.Sma", "trend.MovingSum", "trend.MovingMax", "trend.MovingMin", "trend.Ema", "trend.Rma", "trend.Smma", "trend.Wma",
+              "trend.Macd", "trend.Tema", "trend.Trima", "trend.TypicalPrice", "trend.WeightedClose", "trend.Envelope", "trend.Envelope/Ema",
+              "trend.Hma", "trend.Vwma", "momentum.AwesomeOscillator", "momentum.Qstick", "volatility.Atr", "volatility.Atr/Ema",
+              "volatility.Atr/Smma", "volatility.Atr/Wma", "volatility.MovingStd", "volatility.BollingerBands", "volatility.BollingerBandWidth",
+              "volatility.DonchianChannel", "volatility.KeltnerChannel", "volatility.KeltnerChannel/fields", "volatility.ChandelierExit",
+              "volatility.AccelerationBands", "volume.Vwap"}
 # configurations of the indicators without a Formulas entry
 EXTRA_CFGS = {
-    "volatility.Po": [[2], [3]], "volatility.SuperTrend": [[2], [3]], "volatility.SuperTrend/Sma": [[2]], "volatility.SuperTrend/Ema": [[3]],
-    "volatility.Atr/Hma": [[4]], "volume.Obv": [[]],
+    "volume.Obv": [[]],
 }
